@@ -344,6 +344,10 @@ def shapes(tier: str, pid: str):
     for kind, key in (("data3d", "tracks"), ("emg", "signals"), ("force3d", "tracks"), ("fpdata", "plats")):
         # the same float32 values handed over as a big-endian array
         A((kind, {"n": 2, key: 1, "lab": [1], "links": 0, "given": ">f4"}))
+        # ... and as column-major (Fortran-contiguous) arrays
+        A((kind, {"n": 2, key: 1, "lab": [1], "links": 0, "given": "F"}))
+    # scale boundary: more than 2^15 / 2^16 points in one 2D block (concrete samples)
+    A(("data2d", {"cells": [[30000, 30000, 30000, 30000]], "concrete_points": True}))
     # item lists edited through the public list after a first encoding
     A(("events", {"events": [(1, 1), (0, 1)], "lab": [1, 0], "edit": "values"}))
     A(("events", {"events": [(1, 2)], "lab": [2], "edit": "append"}))
